@@ -47,8 +47,38 @@ def validate(path):
                     env={"TRACE_FILE": path}, workers=1, name="val", timeout=3000, mem="3g")
 
 
+LANGS4 = ["kotlin", "java", "groovy", "scala"]
+
+
+def run_ev(d, jobs, verdict):
+    """EV: Context._add_entity/_remove_entity recorded while real programs are generated, replayed through HContext"""
+    ev_stats = {"programs": 0, "steps": 0}
+    evfiles = [f for fl in parallel(lambda i: json.loads(run_driver("ev_ctx.py", [jobs[i][0], json.dumps(jobs[i][1]), os.path.join(d, "evctx%d.json" % i)],
+                                                                    timeout=3000)), range(len(jobs))) for f in fl]
+    evvals = parallel(lambda f: tlc_must("HContextEvTrace", cfg(init="TInit", next_="TNext", constraints=["AtEnd"], constants={"Values": "{}"})
+                                         .replace("CONSTANTS\n", "CONSTANTS\n  NSs <- TraceNSs\n"),
+                                         env={"TRACE_FILE": f}, workers=1, name="evctx", timeout=3000, mem="4g"), evfiles)
+    for f, v in zip(evfiles, evvals):
+        cs = {c["id"]: c for c in read_json(f)["cases"]}
+        got = {j["case"]: j for j in v.json}
+        for cid, c in cs.items():
+            ev_stats["programs"] += 1
+            ev_stats["steps"] += len(c["ops"])
+            j = got.get(cid)
+            if j is None or j["steps"] != len(c["ops"]):
+                raise MachineryError("EV C16: history of %s not consumed" % cid)
+            for cl, a, b in j["bad"]:
+                verdict.add("EV:" + cl, {"id": cid, "where": [a, b]}, "after the generator's own %d symbol-table steps for %s: %s at %s %s" % (len(c["ops"]), cid, cl, a, b))
+    return ev_stats
+
+
 def run(tier, seed, selftest=False, replay=None):
     t0 = time.time()
+    if replay and str(read_json(os.path.join(replay, "case.json")).get("key", "")).startswith("EV:"):
+        cid = read_json(os.path.join(replay, "case.json"))["case"]["id"]
+        verdict = Verdict(PID)
+        run_ev(subdir("c16"), [(cid.split("/")[0], [int(cid.split("/")[1])])], verdict)
+        return verdict.finish()
     T = lambda what: os.environ.get("VERIF_VERBOSE") and print("[c16] %s at %.1fs" % (what, time.time() - t0), flush=True)
     gens = []
     if replay:
@@ -96,27 +126,8 @@ def run(tier, seed, selftest=False, replay=None):
         for j in v.json:
             for cl in j["bad"]:
                 verdict.add(cl, tr[j["case"]], "query clause %s disagrees with HContext after step %d of history %s" % (cl, j["step"], j["case"]))
-    ev_stats = {"programs": 0, "steps": 0}
-    if not replay:
-        langs = ["kotlin", "java", "groovy", "scala"]
-        n = 2 if tier == "quick" else 12
-        evfiles = [f for fl in parallel(lambda i: json.loads(run_driver("ev_ctx.py", [langs[i % 4], json.dumps([seed * 1000 + 10 * i + k for k in range(n)]),
-                                                                                 os.path.join(d, "evctx%d.json" % i)], timeout=3000)), range(8)) for f in fl]
-        evvals = parallel(lambda f: tlc_must("HContextEvTrace", cfg(init="TInit", next_="TNext", constraints=["AtEnd"], constants={"Values": "{}"})
-                                             .replace("CONSTANTS\n", "CONSTANTS\n  NSs <- TraceNSs\n"),
-                                             env={"TRACE_FILE": f}, workers=1, name="evctx", timeout=3000, mem="4g"), evfiles)
-        for f, v in zip(evfiles, evvals):
-            cs = {c["id"]: c for c in read_json(f)["cases"]}
-            got = {j["case"]: j for j in v.json}
-            for cid, c in cs.items():
-                ev_stats["programs"] += 1
-                ev_stats["steps"] += len(c["ops"])
-                j = got.get(cid)
-                if j is None or j["steps"] != len(c["ops"]):
-                    raise MachineryError("EV C16: history of %s not consumed" % cid)
-                for cl, a, b in j["bad"]:
-                    verdict.add("EV:" + cl, {"id": cid, "where": [a, b]}, "after the generator's own %d symbol-table steps for %s: %s at %s %s" % (len(c["ops"]), cid, cl, a, b))
-        T("EV validated")
+    ev_stats = run_ev(d, [(LANGS4[i % 4], [seed * 1000 + 10 * i + k for k in range(2 if tier == "quick" else 12)]) for i in range(8)], verdict) if not replay else {}
+    T("EV validated")
     rc = verdict.finish()
     sample = read_json(files[0])["cases"][-1]
     write_evidence(PID, tier, seed, "model_checking", {
